@@ -17,7 +17,7 @@ import zipfile
 
 KINDS = ["module_linear", "module_seq", "module_buffers", "state_dict", "nested", "tensor", "zero_size",
          "shared", "dtypes", "noncontig", "big_nested", "big_tensor", "many_memo"]
-REFUSALS = ["legacy_pickle", "unrecognised_zip", "model_archive"]
+REFUSALS = ["legacy_pickle", "unrecognised_zip", "model_archive", "junk_mar_data_pkl"]
 
 
 # ---------------------------------------------------------------- cases
@@ -143,6 +143,21 @@ def build_input(case, path):
             z.writestr("MAR-INF/MANIFEST.json", b"{}")
             z.writestr("handler.py", b"pass\n")
             z.writestr("weights.pt", b"w")
+        return None
+    if kind == "junk_mar_data_pkl":
+        # identified as something (a model archive) but NOT as PyTorch v1.3 -- the zip does not start at
+        # offset 0 -- yet it opens as a zip and has a */data.pkl member: everything the insertion code
+        # needs after validation, so only validation keeps it out
+        import pickle
+        buf = io.BytesIO()
+        with zipfile.ZipFile(buf, "w") as z:
+            z.writestr("MAR-INF/MANIFEST.json", b"{}")
+            z.writestr("handler.py", b"pass\n")
+            z.writestr("weights.pt", b"w")
+            z.writestr("model/data.pkl", pickle.dumps({"w": [1, 2, 3]}, protocol=2))
+            z.writestr("model/version", b"3\n")
+        with open(path, "wb") as f:
+            f.write(b"#!leading junk\n" + buf.getvalue())
         return None
     if kind == "two_data_pkl":
         obj = {"w": torch.arange(3.0)}
@@ -285,6 +300,21 @@ def observe(case, workdir, tag):
                 w.inject_payload(case["payload"], out_rel, injection="insertion", overwrite=case["overwrite"])
             except Exception as e:  # noqa
                 status, exc = "raised", type(e).__name__
+                if case.get("refusal"):
+                    # a refused file stays refused: ask the SAME wrapper object again (and its `formats`
+                    # view in between) -- every attempt must raise and write nothing
+                    for attempt in (2, 3):
+                        try:
+                            _ = w.formats
+                        except Exception:  # noqa
+                            pass
+                        try:
+                            w.inject_payload(case["payload"], out_rel, injection="insertion",
+                                             overwrite=case["overwrite"])
+                            status, exc = "done", f"attempt {attempt} on the same wrapper was not refused"
+                            break
+                        except Exception:  # noqa
+                            pass
     finally:
         os.chdir(cwd)
     after = listing(d)
